@@ -126,6 +126,7 @@ func init() {
 			R20(),
 			R10(),
 			R32(),
+			R41(),
 			Only(R01(map[string]int{"memBucket.files": 6, "memstore.buckets": 5}), `/memstore\.`, `/memBucket\.`),
 			Only(R04(), fns("(*memstore).getBucket", "(*memstore).getOrCreateBucket", "(*memstore).CreateBucket", "(*memstore).Add", "(*memstore).UpdateMeta", "(*memstore).Delete", "(*memstore).Walk", "(*memstore).find")),
 			Only(R16(5, core.PkgGcsemu, core.PkgGcsutil), fns("(*GcsEmu).finishUpload", "(*GcsEmu).handleGcsNewObject", "(*GcsEmu).handleGcsNewObjectResume", "(*GcsEmu).handleGcsCopy", "(*GcsEmu).handleGcsUpdateMetadataRequest", "(*GcsEmu).handleGcsCompose", "(*GcsEmu).finishCompose", "(*GcsEmu).handleGcsDelete")),
@@ -234,6 +235,8 @@ func init() {
 			Only(R22(), `Copy`),
 			Only(R10(), `Copy`, `compose`),
 			Only(R33(), fns("(*GcsEmu).finishCompose")),
+			Only(R41(), fns("(*GcsEmu).handleGcsCopy", "(*GcsEmu).handleGcsCompose")),
+			R42(),
 		},
 		Explanation: "Decides: more than 32 sources is 400 and a missing source 404, and both change nothing — the bound check dominates every source read and the Add, every error return of finishCompose precedes its only Add (R08); sources are read and the destination written inside the destination's critical section (R11); the rewrite path split is length-checked on the value that is indexed (R14); a missing destination in the compose body and a missing source object are nil-checked (R16) and answered (R15); both stores' Copy clear TimeCreated and go through Add (R22); a copy does not share mutable metadata with its source in a way a later patch could write through (R10).",
 		NotDecided: []string{"concatenation order/content, metadata cloning details: values"},
